@@ -89,7 +89,7 @@ func equalLS(a, b lockset) bool {
 
 type LockInfo struct {
 	p     *Prog
-	entry map[*ssa.Function]lockset                       // must-hold at function entry
+	entry map[*ssa.Function]lockset                     // must-hold at function entry
 	at    map[*ssa.Function]map[ssa.Instruction]lockset // must-hold before each instruction
 	// sync higher-order callees whose closure argument runs synchronously
 }
